@@ -72,9 +72,11 @@ fn gen_cases(ctx: &mut Ctx) -> Vec<Value> {
             Some(json!([secs, if rng.chance(3, 4) { 0 } else { rng.below(1_000_000_000) }]))
         };
         let dt = match rng.below(4) { 0 => (0, 0), 1 => (0, rng.below(1_000_000_000)), _ => (rng.below(span + 2), rng.below(1_000_000_000)) };
+        // one case in eight: the realtime clock steps back between the two calls
+        let back = if rng.chance(1, 8) { Some(json!([rng.below(span + 2), rng.below(1_000_000_000)])) } else { None };
         res.push(json!({
             "refresh": refresh, "min_refresh": min, "cfg": if i % 2 == 0 { "cli" } else { "file" },
-            "now0": [now0_s, now0_n], "dt": [dt.0, dt.1], "expiry": expiry,
+            "now0": [now0_s, now0_n], "dt": [dt.0, dt.1], "expiry": expiry, "back": back,
         }));
     }
     // sequences of regular runs on one history (the server loop's successful arm)
@@ -199,7 +201,8 @@ pub fn run_c34(ctx: &mut Ctx) {
         let via_cli = input["cfg"].as_str() == Some("cli");
         let now0 = ns(&input["now0"]);
         let dt = ns(&input["dt"]);
-        let now1 = now0 + dt;
+        let back = if input["back"].is_array() { ns(&input["back"]) } else { 0 };
+        let now1 = if back > 0 { now0.saturating_sub(back) } else { now0 + dt };
         let expiry = if input["expiry"].is_null() { None } else { Some(ns(&input["expiry"])) };
 
         let mut opts = vec![("refresh", refresh.to_string())];
@@ -260,7 +263,8 @@ pub fn run_c34(ctx: &mut Ctx) {
                 ctx.oracle_fail("wait-below-min-refresh",
                     "wait shorter than min-refresh (or refresh when unset)", &input, observed.clone());
             }
-            if wait > upper {
+            // a backward clock step is outside the property; the excess is bounded by the step
+            if wait > upper + now0.saturating_sub(now) {
                 ctx.oracle_fail("wait-above-max", "wait longer than max(refresh, min-refresh)",
                     &input, observed.clone());
             }
@@ -284,5 +288,6 @@ pub fn run_c34(ctx: &mut Ctx) {
             ctx.nontrivial(format!("{ord}/{pos}/{}", dt > 0));
             ctx.count(&format!("expiry:{pos}"));
         } else { ctx.count("expiry:none") }
+        if back > 0 { ctx.count("clock-back") }
     }
 }
